@@ -611,7 +611,7 @@ package gkvlite
 //@   props C10 C05 C15 C13 C01 C17
 //@   from: code; C10 R6 (a node comes from the free list or is new, every field is overwritten); C15 (the copied item slot takes a reference); C13 (aggregates are stored as given)
 //@   requires t != nil && t.store != nil && locks == emptyLocks()
-//@   requires [C13] exact-aggregates: itemIn != nil ==> numNodesIn == cnt(tvs[leftIn]) + cnt(tvs[rightIn]) + 1 && numBytesIn == sumb(tvs[leftIn]) + sumb(tvs[rightIn]) + ibytes(ias[itemIn])
+//@   requires [C13,C01] exact-aggregates: itemIn != nil ==> numNodesIn == cnt(tvs[leftIn]) + cnt(tvs[rightIn]) + 1 && numBytesIn == sumb(tvs[leftIn]) + sumb(tvs[rightIn]) + ibytes(ias[itemIn])
 //@   relies A13-free-list-head-is-unreferenced: freeNodes != nil ==> leftIn != ref(freeNodes.left) && leftIn != ref(freeNodes.right) && rightIn != ref(freeNodes.left) && rightIn != ref(freeNodes.right) && itemIn != ref(freeNodes.item)
 //@   modifies node.numNodes, node.numBytes, node.next, itemLoc.loc, itemLoc.item, nodeLoc.loc, nodeLoc.node, G.freeNodes, AllocStats.MkNodes, AllocStats.AllocNodes, AllocStats.CurFreeNodes, t.store.nodeAllocs, ghost net, ghost tvs, ghost ias
 //@   ensures [C10,C13] init: result != nil && result.numNodes == numNodesIn && result.numBytes == numBytesIn && result.next == nil
@@ -1017,7 +1017,7 @@ package gkvlite
 //@   requires o != nil
 //@   modifies nodeLoc.node, o.nodeAllocs, new ploc.Offset, new ploc.Length, new node.numNodes, new node.numBytes, new node.next, new itemLoc.loc, new itemLoc.item, new nodeLoc.loc, new nodeLoc.next, new mem.byte, ghost io.fails, ghost io.reads, ghost io.valbytes, ghost src
 //@   ensures [C07] E1: io.fails >= old(io.fails) && (io.fails > old(io.fails) ==> err != nil)
-//@   ensures [C13] exact-aggregates: err == nil ==> leftNum == cnt(tvs[left]) && leftBytes == sumb(tvs[left]) && rightNum == cnt(tvs[right]) && rightBytes == sumb(tvs[right])
+//@   ensures [C13,C01] exact-aggregates: err == nil ==> leftNum == cnt(tvs[left]) && leftBytes == sumb(tvs[left]) && rightNum == cnt(tvs[right]) && rightBytes == sumb(tvs[right])
 //@   ensures [C19] no-value-bytes: io.valbytes == old(io.valbytes)
 
 //@ func (*Store).split
@@ -1034,7 +1034,7 @@ package gkvlite
 //@   ensures [C01] right-is-the-greater-keys: result3 == nil ==> bst(tvs[result2]) && (forall k {mem(k, tvs[result2])} {mem(k, old(tvs)[n])} :: mem(k, tvs[result2]) == (mem(k, old(tvs)[n]) && k > ord(s))) && (forall k {itemAt(k, tvs[result2])} :: mem(k, tvs[result2]) ==> itemAt(k, tvs[result2]) == itemAt(k, old(tvs)[n]))
 //@   ensures [C01] middle-is-the-key-if-present: result3 == nil ==> (isLeaf(tvs[result1]) == !mem(ord(s), old(tvs)[n])) && (!isLeaf(tvs[result1]) ==> ikey(rootItem(tvs[result1])) == ord(s) && rootItem(tvs[result1]) == itemAt(ord(s), old(tvs)[n]))
 //@   ensures [C13] heap-order-kept: result3 == nil && hp(old(tvs)[n]) ==> hp(tvs[result0]) && hp(tvs[result2]) && rootPri(tvs[result0]) <= rootPri(old(tvs)[n]) && rootPri(tvs[result2]) <= rootPri(old(tvs)[n])
-//@   ensures [C13] exact-aggregates: result3 == nil ==> cnt(tvs[result0]) + cnt(tvs[result2]) + (isLeaf(tvs[result1]) ? 0 : 1) == cnt(old(tvs)[n]) && sumb(tvs[result0]) + sumb(tvs[result2]) + (isLeaf(tvs[result1]) ? 0 : ibytes(rootItem(tvs[result1]))) == sumb(old(tvs)[n])
+//@   ensures [C13,C01] exact-aggregates: result3 == nil ==> cnt(tvs[result0]) + cnt(tvs[result2]) + (isLeaf(tvs[result1]) ? 0 : 1) == cnt(old(tvs)[n]) && sumb(tvs[result0]) + sumb(tvs[result2]) + (isLeaf(tvs[result1]) ? 0 : ibytes(rootItem(tvs[result1]))) == sumb(old(tvs)[n])
 //@   ensures [C01] older-slots-keep-their-denotation: (forall x {tvs[x]} :: !fresh(x) ==> tvs[x] == old(tvs)[x]) && (forall y {ias[y]} :: !fresh(y) ==> ias[y] == old(ias)[y])
 //@   ensures [C19] no-value-bytes: io.valbytes == old(io.valbytes)
 //@   ensures [C01] older-item-slots-stay-occupied: forall y {itemLoc.loc[y]} {itemLoc.item[y]} :: !fresh(y) ==> itemLoc.loc[y] == old(itemLoc.loc[y]) && (old(itemLoc.item[y]) != nil ==> itemLoc.item[y] != nil)
@@ -1053,7 +1053,7 @@ package gkvlite
 //@   ensures [C07] E1: io.fails >= old(io.fails) && (io.fails > old(io.fails) ==> err != nil)
 //@   ensures [C07] result-never-nil: res != nil
 //@   ensures [C01] joined-is-the-union: err == nil ==> bst(tvs[res]) && (forall k {mem(k, tvs[res])} {mem(k, old(tvs)[this])} {mem(k, old(tvs)[that])} :: mem(k, tvs[res]) == (mem(k, old(tvs)[this]) || mem(k, old(tvs)[that]))) && (forall k {itemAt(k, tvs[res])} :: mem(k, tvs[res]) ==> itemAt(k, tvs[res]) == (mem(k, old(tvs)[this]) ? itemAt(k, old(tvs)[this]) : itemAt(k, old(tvs)[that])))
-//@   ensures [C13] exact-aggregates: err == nil ==> cnt(tvs[res]) == cnt(old(tvs)[this]) + cnt(old(tvs)[that]) && sumb(tvs[res]) == sumb(old(tvs)[this]) + sumb(old(tvs)[that])
+//@   ensures [C13,C01] exact-aggregates: err == nil ==> cnt(tvs[res]) == cnt(old(tvs)[this]) + cnt(old(tvs)[that]) && sumb(tvs[res]) == sumb(old(tvs)[this]) + sumb(old(tvs)[that])
 //@   ensures [C13] heap-order-kept: err == nil && hp(old(tvs)[this]) && hp(old(tvs)[that]) ==> hp(tvs[res]) && rootPri(tvs[res]) <= max(rootPri(old(tvs)[this]), rootPri(old(tvs)[that]))
 //@   ensures [C01] older-slots-keep-their-denotation: (forall x {tvs[x]} :: !fresh(x) ==> tvs[x] == old(tvs)[x]) && (forall y {ias[y]} :: !fresh(y) ==> ias[y] == old(ias)[y])
 //@   ensures [C01] older-item-slots-stay-occupied: forall y {itemLoc.loc[y]} {itemLoc.item[y]} :: !fresh(y) ==> itemLoc.loc[y] == old(itemLoc.loc[y]) && (old(itemLoc.item[y]) != nil ==> itemLoc.item[y] != nil)
